@@ -47,7 +47,7 @@ def boot_file_op(g, rng, model, media):
         data = mbr_image(rng)
         length = len(data)
     else:
-        length = rng.choice([1, 63, 64, 65, 512, 2047, 2048, 2049, 5000, 20000])
+        length = rng.choice([1, 8, 9, 30, 63, 64, 65, 512, 2047, 2048, 2049, 4096, 5000, 6144, 20000])
         data = None
     op = {'op': 'add_fp', 'cid': g.new_cid(), 'length': length}
     if data is not None:
@@ -283,6 +283,29 @@ def check(cfg, ops, seed, counters):
     if oc.ok:
         for k, d in common.compare_views(s2.model, s2.iso):
             vio.append({'key': 'view:' + k, 'detail': d})
+        if seed % 2 == 0 and s2.model.boot is not None:
+            # second generation: edits on the opened image that move the boot files, then the
+            # boot structures (load addresses, boot info tables) of the re-mastered image
+            moved = 0
+            for k_ in range(3):
+                mv = {'op': 'add_directory', 'iso_path': '/MV%dG2' % k_}
+                if cfg.rr:
+                    mv['rr_name'] = 'mv%d-g2' % k_
+                moved += int(s2.step(mv).ok)
+            if moved:
+                img3, oc3 = s2.write()
+                if not oc3.ok:
+                    vio.append({'key': 'write-raises:%s@%s' % (oc3.exc_class, oc3.exc_where), 'detail': 'after reopen+edits: %s' % oc3.exc_msg})
+                else:
+                    s3, oc4 = s2.reopen(img3.getvalue())
+                    v3, _et3 = check_image(img3.getvalue(), s2.model, s3.iso if oc4.ok else None, counters)
+                    if not oc4.ok:
+                        v3.append({'key': 'reopen-raises:%s@%s' % (oc4.exc_class, oc4.exc_where), 'detail': oc4.exc_msg})
+                    for v_ in v3:
+                        v_['detail'] = 'after reopen+edits: ' + (v_.get('detail') or '')
+                    vio += v3
+                    counters['second_generation_images'] = counters.get('second_generation_images', 0) + 1
+                    s3.close()
     s2.close()
     # twin: rm_eltorito must leave nothing behind
     if sess.model.boot is not None:
